@@ -33,6 +33,9 @@ func tileIDs(c *api.Context, feature b6.Feature) (b6.Collection[b6.FeatureID, in
 
 // Deprecated
 func tileIDsHex(c *api.Context, feature b6.Feature) (b6.Collection[b6.FeatureID, string], error) {
+	if err := requireFeature("tile-ids-hex", feature); err != nil {
+		return b6.Collection[b6.FeatureID, string]{}, err
+	}
 	ids := b6.ArrayCollection[b6.FeatureID, string]{}
 	if a, ok := feature.(b6.AreaFeature); ok {
 		ids.Keys = make([]b6.FeatureID, a.Len())
